@@ -452,3 +452,40 @@ Definition run_op (m : md) (o : op) : outcome :=
   | OpLogout pref expected eids => do_logout m pref expected eids
   | OpDisco eid url => verify_return m eid url
   end.
+
+(* ---------------------------------------------------------------- long-lived entities (round 3) *)
+(* An entity lives for a long time: it handles many operations, and its metadata is refreshed in between
+   through Entity.reload_metadata(conf) -> MetadataStore.reload(conf) (mdstore.py 1133-1143: the old
+   metadata dict is set aside, conf is loaded into a new one, and when that raises the old one is put back;
+   reload_metadata returns True / False).  Several entities live in one process, each with a store of its
+   own.  As coded, NOTHING but the metadata currently in the store of the entity that handles the operation
+   enters an answer: no memo, no state shared between entities.  The state of the model is therefore the
+   metadata of each entity, entity k = the k-th object the harness created. *)
+Inductive sstep :=
+| SOp (k : nat) (o : op)          (* entity k handles operation o *)
+| SReload (k : nat) (m : md)      (* entity k is given a metadata configuration that loads as m *)
+| SReloadFail (k : nat).          (* entity k is given a configuration that does not load (raises half-way) *)
+
+Inductive sobs :=
+| OOut (out : outcome)            (* what the operation gave *)
+| OReloaded (ok : bool).          (* what reload_metadata returned *)
+
+Definition stores := nat -> md.
+Definition init_stores (l : list md) : stores := fun k => nth k l [].
+Definition upd (k : nat) (m : md) (st : stores) : stores := fun j => if Nat.eqb j k then m else st j.
+
+Fixpoint run_seq (st : stores) (steps : list sstep) : list sobs :=
+  match steps with
+  | [] => []
+  | SOp k o :: r => OOut (run_op (st k) o) :: run_seq st r
+  | SReload k m :: r => OReloaded true :: run_seq (upd k m st) r
+  | SReloadFail k :: r => OReloaded false :: run_seq st r
+  end.
+
+(* the metadata every entity holds after the steps *)
+Fixpoint stores_after (st : stores) (steps : list sstep) : stores :=
+  match steps with
+  | [] => st
+  | SReload k m :: r => stores_after (upd k m st) r
+  | _ :: r => stores_after st r
+  end.
